@@ -233,7 +233,10 @@ fn body_stars(n: usize) -> impl Fn(&Ch) -> Run + Sync + Send {
     // redirects, or (additionally) as a namespace re-export
     // (3: the edge carries a @ts-types pragma - for the symbol tables, which
     // describe types, its star re-export is the declaration file's)
-    let spelling = ch.shape("star_edge_spelling", 4);
+    // (4: the edge goes through a JavaScript module that declares a types
+    // module which cannot be loaded - the JavaScript module itself is then what
+    // the symbol tables describe, and the names flow through it)
+    let spelling = ch.shape("star_edge_spelling", 5);
     let mut files = vec![];
     let mut ns_names: Vec<Vec<String>> = vec![vec![]; n];
     for i in 0..n {
@@ -246,6 +249,7 @@ fn body_stars(n: usize) -> impl Fn(&Ch) -> Run + Sync + Send {
             ns_names[i].push(format!("ns{j}"));
           }
           3 => s.push_str(&format!("// @ts-types=\"./t{j}.d.ts\"\nexport * from \"./m{j}.ts\";\n")),
+          4 => s.push_str(&format!("export * from \"./j{j}.js\";\n")),
           _ => s.push_str(&format!("export * from \"./m{j}.ts\";\n")),
         }
       }
@@ -262,6 +266,11 @@ fn body_stars(n: usize) -> impl Fn(&Ch) -> Run + Sync + Send {
     if spelling == 1 {
       for j in 0..n {
         files.push((format!("https://s/r{j}.ts"), format!("=> https://s/m{j}.ts")));
+      }
+    }
+    if spelling == 4 {
+      for j in 0..n {
+        files.push((format!("https://s/j{j}.js"), format!("// @ts-self-types=\"./gone{j}.d.ts\"\nexport * from \"./m{j}.ts\";\n")));
       }
     }
     if spelling == 3 {
